@@ -23,7 +23,7 @@ TECHNIQUE = {
     "C05": 'CFG lookup-before-create + who-may-construct/who-may-write + tolerance abstract values (absolute vs relative, signed vs magnitude) + abstract evaluation of VertexList.add over insertion scenarios + exhaustive corner->patch table evaluation',
     "C06": 'CFG section ordering in Mesh.write + exhaustive side/corner table evaluation + writer/reader index agreement + abstract evaluation of assemble/patch state + clear/assemble effect pairing',
     "C07": 'registry/Literal/class-kind agreement + CFG dedup ordering + abstract evaluation of the 12 emitted beams, EdgeList.add and the curve-edge parameter order',
-    "C08": "abstract-domain analysis of inverse-trigonometric arguments (clipped / damped / unit.unit) + abstract evaluation of the arc edges' argument pairing + affine kinds",
+    "C08": "abstract-domain analysis of inverse-trigonometric arguments + exact identities in a rational-function domain (circumcentre) + parity (sign flow) + abstract evaluation of argument pairing and of the centre adjustment on a toy model + affine kinds",
     "C09": 'interprocedural may-mutate/alias effect analysis + affine origin balance + override-bypass (MRO) check + polynomial-domain normalisation of the reflection matrix + shared-part and closure-capture analyses',
     "C10": 'exhaustive abstract evaluation of face permutations (incl. history independence), edge map and side addressing against the hexahedron convention',
     "C11": 'exhaustive quad-map orientation/conformity check + union-find chop-coverage analysis over literal sketches + chain-source consistency + guard evaluation against sketch facts + inverse-trig domain and sign-flow analyses',
